@@ -189,7 +189,8 @@ class Check:
 
     def finish(self):
         wall = time.time() - self.t0
-        rdir = os.path.join(VERIF, 'replays', self.pid)
+        OUT = os.environ.get('VERIF_OUT') or VERIF       # scratch runs against a mutated copy write elsewhere
+        rdir = os.path.join(OUT, 'replays', self.pid)
         unknown = []
         seen_known = {}
         for v in self.violations:
@@ -212,7 +213,7 @@ class Check:
             for i, ((c, cl, fp), vs) in enumerate(sorted(groups.items(), key=lambda kv: str(kv[0]))):
                 path = os.path.join('replays', self.pid, f'{self.tier}_{i}.json')
                 json.dump(dict(property=self.pid, check=c, clause=cl, fp=fp, count=len(vs),
-                               first=vs[0]), open(os.path.join(VERIF, path), 'w'), indent=1,
+                               first=vs[0]), open(os.path.join(OUT, path), 'w'), indent=1,
                           default=str)
                 lines.append(f'VIOLATION property={self.pid} replay={path}')
                 print(f'  [{c}] clause={cl} fp={fp} count={len(vs)} detail={str(vs[0].get("detail"))[:200]}')
@@ -244,8 +245,8 @@ class Check:
         ev = dict(property_id=self.pid, tier=self.tier, seed=int(self.seed), level=self.level,
                   coverage=cov, assumptions=self.assumptions, wall_s=round(wall, 2),
                   violations=len(unknown))
-        os.makedirs(os.path.join(VERIF, 'evidence'), exist_ok=True)
-        json.dump(ev, open(os.path.join(VERIF, 'evidence', f'{self.pid}.json'), 'w'), indent=1,
+        os.makedirs(os.path.join(OUT, 'evidence'), exist_ok=True)
+        json.dump(ev, open(os.path.join(OUT, 'evidence', f'{self.pid}.json'), 'w'), indent=1,
                   default=str)
         if self.evaluations and total_skips > 0.25 * self.evaluations:
             raise MachineryError(f'{total_skips} of {self.evaluations} records skipped: {self.skips}')
